@@ -82,11 +82,11 @@ def obligations(tier):
         obs.append(DOb(PID, f"{PID}/solvers.nnls:{fn}/{clause}[{tag}]", f"tensorly.solvers.nnls:{fn}", inputs, call, claims, params=params, pre=pre, instance=instance, clause=clause, **kw))
 
     for (r, c) in sizes:
-        for opt in ("plain", "sparsity", "ridge"):
+        for opt in ("plain", "sparsity", "ridge", "sparsity+ridge"):
             params = dict(eps=None)
-            if opt == "sparsity":
+            if "sparsity" in opt:
                 params["ls"] = None
-            if opt == "ridge":
+            if "ridge" in opt:
                 params["lr_"] = None
 
             def pre(I, r=r, opt=opt):
